@@ -83,6 +83,8 @@ class SobolevSpace:
                 "Unable to test for inclusion of a SobolevSpace in another SobolevSpace. "
                 "Did you mean to use <= instead?"
             )
+        if isinstance(other.sobolev_space, DirectionalSobolevSpace):
+            return _is_subspace(other.sobolev_space, self)
         return other.sobolev_space == self or self in other.sobolev_space.parents
 
     def __lt__(self, other):
@@ -103,6 +105,18 @@ class SobolevSpace:
     def __ge__(self, other):
         """Implement >= as "is a superset of"."""
         return other < self or self == other
+
+
+def _is_subspace(space, other):
+    """Check if a space is contained in another when one of them is directional.
+
+    The parents of a directional space do not describe its inclusions,
+    so membership of elements is decided by <= in that case.
+    """
+    try:
+        return space <= other
+    except NotImplementedError:
+        return False
 
 
 class DirectionalSobolevSpace(SobolevSpace):
@@ -147,9 +161,7 @@ class DirectionalSobolevSpace(SobolevSpace):
                 "Unable to test for inclusion of a SobolevSpace in another SobolevSpace. "
                 "Did you mean to use <= instead?"
             )
-        return other.sobolev_space == self or all(
-            self[i] in other.sobolev_space.parents for i in self._spatial_indices
-        )
+        return _is_subspace(other.sobolev_space, self)
 
     def __eq__(self, other):
         """Check equality."""
